@@ -13,6 +13,8 @@ Step(e) == LET c == CaseOf(e.frame) x == Expect(c) IN
     [] c.kind = "render" -> /\ e.ok = x.ok
                             /\ (x.ok => e.text = x.text /\ e.back = TRUE)   \* exact canonical text, parses back
     [] c.kind = "target" -> e.targetok = TRUE /\ e.addrok = TRUE /\ e.fieldsok = TRUE
+    \* the started server has listening sockets on its port, all of them on the loopback address, and answers there
+    [] c.kind = "listen" -> e.started = TRUE /\ e.bound # <<>> /\ ToSet(e.bound) \subseteq x.bound /\ e.dial = TRUE
 TInit == case = NoCase /\ verdict = NoCase /\ tr \in DOMAIN Traces /\ l = 1
 TNext == /\ l <= Len(Traces[tr].ev) /\ Step(Traces[tr].ev[l])
          /\ l' = l + 1 /\ UNCHANGED <<tr, case, verdict>>
